@@ -202,8 +202,7 @@ theorem auxValueArray_wf (a : Bytes) (size : Nat) (h8 : 8 ≤ a.length) (hs : el
   · rw [hasn]
     have hm : makeLen "sam.Aux.Value:make([]T, length)" ((u32le ((a.take 8).drop 4) : Nat) : Int) = ok (u32le ((a.take 8).drop 4)) := by
       unfold makeLen
-      rw [if_neg (by omega)]
-      simp
+      rw [if_neg (by omega), Int.toNat_natCast]
     rw [bind_ok _ _ _ hm, bind_ok _ _ _ (sliceFrom_of_le _ a 8 h8)]
     rw [if_neg]
     · rfl
@@ -589,6 +588,58 @@ theorem wfAux_take_text (rem : Bytes) (t : UInt8) (z : Nat) (ht : rem[2]? = some
   have n3 : ¬(t = 105 ∨ t = 73 ∨ t = 102) := by rcases h with e | e <;> subst e <;> decide
   simp only [if_neg n1, if_neg n2, if_neg n3, if_pos h]
 
+theorem wfAux_of_text (a : Bytes) (t : UInt8) (ht : a[2]? = some t) (h : t = 90 ∨ t = 72) : wfAux a = true := by
+  unfold wfAux
+  rw [ht]
+  have n1 : ¬(t = 65 ∨ t = 99 ∨ t = 67) := by rcases h with e | e <;> subst e <;> decide
+  have n2 : ¬(t = 115 ∨ t = 83) := by rcases h with e | e <;> subst e <;> decide
+  have n3 : ¬(t = 105 ∨ t = 73 ∨ t = 102) := by rcases h with e | e <;> subst e <;> decide
+  simp only [if_neg n1, if_neg n2, if_neg n3, if_pos h]
+
+/-- the pair loop of `bam.decodeHex` on an even number of digits, an even `k` and the array that
+`decodeHex` makes: an error or a value, never a panic and never out of fuel -/
+theorem decodeHexLoop_spec (digits : Bytes) (hev : digits.length % 2 = 0) :
+    ∀ (fuel k : Nat) (out : Bytes), k % 2 = 0 → k ≤ digits.length → digits.length + 2 ≤ 2 * fuel + k →
+      decodeHexLoop digits (3 + digits.length / 2) fuel k out = err ∨
+      ∃ r, decodeHexLoop digits (3 + digits.length / 2) fuel k out = ok r := by
+  intro fuel
+  induction fuel with
+  | zero => intro k out hk hkl hf; omega
+  | succ fuel ih =>
+    intro k out hk hkl hf
+    unfold decodeHexLoop
+    split
+    · exact Or.inr ⟨out, rfl⟩
+    · rename_i hlt
+      have h0 : k < digits.length := by omega
+      have h1 : k + 1 < digits.length := by omega
+      rw [bind_ok _ _ _ (index_of_lt _ digits k h0), bind_ok _ _ _ (index_of_lt _ digits (k + 1) h1)]
+      split
+      · rw [if_pos (by omega)]
+        exact ih (k + 2) _ (by omega) (by omega) (by omega)
+      · rw [bind_ok _ _ _ (slice_of_le _ digits k (k + 2) (by omega) (by omega))]
+        exact Or.inl rfl
+
+/-- `bam.decodeHex` on a field of at least three bytes: an error, or the three tag and type bytes
+followed by the decoded value -/
+theorem decodeHexGo_spec (f : Bytes) (h3 : 3 ≤ f.length) :
+    decodeHexGo f = err ∨ ∃ body, decodeHexGo f = ok (f.take 3 ++ body) := by
+  unfold decodeHexGo
+  rw [bind_ok _ _ _ (sliceFrom_of_le _ f 3 h3)]
+  split
+  · exact Or.inl rfl
+  · rename_i hev
+    have hev' : (f.drop 3).length % 2 = 0 := by omega
+    have hm : makeLen "bam.decodeHex:make(sam.Aux, 3+len(digits)/2)" ((3 + (f.drop 3).length / 2 : Nat) : Int)
+        = ok (3 + (f.drop 3).length / 2) := by
+      unfold makeLen
+      rw [if_neg (by omega), Int.toNat_natCast]
+    rw [bind_ok _ _ _ hm, bind_ok _ _ _ (sliceTo_of_le _ f 3 h3)]
+    rcases decodeHexLoop_spec (f.drop 3) hev' ((f.drop 3).length / 2 + 1) 0 [] (by omega) (by omega) (by omega)
+      with h | ⟨r, h⟩
+    · rw [h]; exact Or.inl rfl
+    · rw [bind_ok _ _ _ h]; exact Or.inr ⟨r, rfl⟩
+
 /-- one step of the walker: an error, or a well-formed field and a positive number of consumed bytes -/
 theorem auxStep_spec (rem : Bytes) (h3 : 2 < rem.length) :
     auxStep rem = err ∨ ∃ f w, auxStep rem = ok (f, w) ∧ 1 ≤ w ∧ w ≤ rem.length ∧
@@ -642,8 +693,20 @@ theorem auxStep_spec (rem : Bytes) (h3 : 2 < rem.length) :
               · exact Or.inl rfl
               · rename_i hz3
                 have hzl := indexZero_lt rem z hz
-                rw [bind_ok _ _ _ (sliceTo_of_le _ rem z (by omega))]
-                exact Or.inr ⟨_, _, rfl, by omega, by omega, fun _ => wfAux_take_text rem t z ht (by omega) c5⟩
+                split
+                · rename_i h72
+                  rw [bind_ok _ _ _ (sliceTo_of_le _ rem z (by omega))]
+                  have hfl : 3 ≤ (rem.take z).length := by rw [List.length_take]; omega
+                  rcases decodeHexGo_spec (rem.take z) hfl with he | ⟨body, hb⟩
+                  · rw [he]; exact Or.inl rfl
+                  · rw [bind_ok _ _ _ hb]
+                    refine Or.inr ⟨_, _, rfl, by omega, by omega, fun _ => wfAux_of_text _ t ?_ c5⟩
+                    have hl3 : ((rem.take z).take 3).length = 3 := by
+                      rw [List.length_take, List.length_take]; omega
+                    rw [List.getElem?_append_left (by omega), List.take_take, Nat.min_eq_left (by omega),
+                      take_getElem2 rem 3 (by omega), ht]
+                · rw [bind_ok _ _ _ (sliceTo_of_le _ rem z (by omega))]
+                  exact Or.inr ⟨_, _, rfl, by omega, by omega, fun _ => wfAux_take_text rem t z ht (by omega) c5⟩
           · rw [if_neg c5]
             have e66 : t = 66 := by
               rcases c4 with e | e | e
